@@ -7,7 +7,7 @@ reaches every kind's indexer; every variable created is bound; lookup order insi
 Not decided: which declaration a name denotes in general (inheritance, shadowing across kinds)."""
 import re
 
-from .. import brackets, cfg, grammar_facts as gf, ast_facts, paths
+from .. import brackets, cfg, grammar_facts as gf, ast_facts, paths, prov
 from ..facts import Body, op_local
 from ..callgraph import callgraph
 
@@ -87,6 +87,8 @@ def run(ck, prog):
                           len(r["opens"]), len(r["closes"]), len(dead)))
     ck.floor("R05.1", "Scopes::push sites", n_push, 9)
     ck.floor("R05.3", "push_file sites", n_pushfile, 1)
+    stack_primitives(ck, prog, "R05.3", PUSH_FILE, POP_FILE, "ide::index::context::IndexCtx::<'a>::current_file_id")
+    stack_primitives(ck, prog, "R05.1", PUSH, POP, None)
     ck.extra["option_tests_seen"] = n_tests
     ck.extra["none_edges_pruned"] = pruned
 
@@ -163,8 +165,13 @@ def run(ck, prog):
             if Body.callee(t) != VNEW:
                 continue
             nv += 1
-            bind = cfg.blocks_calling(b, binders)
+            # a path that leaves through a failing `?` abandons the whole construct (nothing is indexed under the variable):
+            # only completed paths count
+            bind = cfg.blocks_calling(b, binders) | cfg.blocks_calling(b, lambda c: c.endswith("::from_residual"))
             p = cfg.path_exists(b, i, lambda x: b.term(x)["k"] == "return", avoid=bind)
+            if p is not None:
+                # `Some(Variable::new(..))?` (a helper returning Option<Variable>, inlined): the early-exit arm is infeasible
+                p = cfg.feasible_path_exists(b, i, lambda x: b.term(x)["k"] == "return", avoid=bind)
             ck.ob("R05.5", "bound:%s:%d" % (b.path, nv), p is None,
                   "Variable::new in %s always reaches add_variable" % b.path,
                   msg="%s: a Variable is created but a path returns without binding it [%s]" % (b.path, b.where(i)))
@@ -295,3 +302,51 @@ def file_stack_rule(ck, prog, rule):
               msg="%s: the include file stack is left unbalanced on some path: every range recorded afterwards is paired "
                   "with the wrong file" % b.path)
     ck.floor(rule, "push_file sites", n, 1)
+    stack_primitives(ck, prog, rule, PUSH_FILE, POP_FILE, "ide::index::context::IndexCtx::<'a>::current_file_id")
+
+
+VEC_MUT = re.compile(r"Vec::<T(, A)?>::(push|pop|truncate|clear|remove|insert|drain|retain|retain_mut|swap_remove|extend|append|"
+                     r"split_off|resize|dedup|extend_from_slice)$|VecDeque::<T(, A)?>::\w+$")
+
+
+def stack_primitives(ck, prog, rule, push_fn, pop_fn, top_fn):
+    """the balanced-bracket argument needs the primitives to be a stack: push adds exactly one element (its argument), pop
+    removes exactly one (the last), the current element is `last()` of the same vector"""
+    def mutations(b):
+        out = []
+        for i, t in b.calls():
+            c = Body.callee(t) or ""
+            m = VEC_MUT.search(c)
+            if not m or not t["args"]:
+                continue
+            recv = prov.origins(b, t["args"][0])
+            flds = {x[2][0] for x in recv if x[0] == "arg" and x[1] == 1 and x[2]}
+            if flds:
+                out.append((i, c.rsplit("::", 1)[-1], next(iter(flds))))
+        return out
+    pb, qb, tb = prog.body(push_fn), prog.body(pop_fn), (prog.body(top_fn) if top_fn else None)
+    ck.anchor(pb is not None and qb is not None and (tb is not None or not top_fn), "stack primitives %s / %s not found" % (push_fn, pop_fn))
+    pm, qm = mutations(pb), mutations(qb)
+    field = pm[0][2] if pm else None
+    ok_push = len(pm) == 1 and pm[0][1] == "push" and \
+        all((x[0] == "arg" and x[1] == 2) or (x[0] == "call" and all(y[0] == "arg" and y[1] == 2 for a_ in pb.term(x[2])["args"]
+                                                                     for y in prov.origins(pb, a_)))
+            for x in prov.origins(pb, pb.term(pm[0][0])["args"][1])) and \
+        cfg.path_exists(pb, 0, lambda x: pb.term(x)["k"] == "return", avoid={pm[0][0]}, include_src=True) is None and \
+        not any(pm[0][0] in bl for _, bl in cfg.loops(pb))
+    ck.ob(rule, "stack-push:%s" % push_fn.rsplit("::", 1)[-1], ok_push, "pushes its argument exactly once onto `%s`" % field,
+          msg="%s is not a plain push of its argument onto the stack (%s): the balanced push/pop argument no longer says which "
+              "file is current" % (push_fn, [(k, f) for _, k, f in pm]))
+    ok_pop = len(qm) == 1 and qm[0][1] == "pop" and qm[0][2] == field and \
+        cfg.path_exists(qb, 0, lambda x: qb.term(x)["k"] == "return", avoid={qm[0][0]}, include_src=True) is None and \
+        not any(qm[0][0] in bl for _, bl in cfg.loops(qb))
+    ck.ob(rule, "stack-pop:%s" % pop_fn.rsplit("::", 1)[-1], ok_pop, "pops exactly one element of `%s`" % field,
+          msg="%s does not remove exactly the last element of the stack (%s): after an included file has been left, the "
+              "rest of the including file is attributed to another file" % (pop_fn, [(k, f) for _, k, f in qm]))
+    if tb is None:
+        return
+    tops = [(i, Body.callee(t)) for i, t in tb.calls() if re.search(r"<impl \[T\]>::(last|first|get)$|Vec::<T(, A)?>::\w+$", Body.callee(t) or "")]
+    ok_top = any(c.endswith("::last") and any(x[0] == "arg" and x[2][:1] == (field,) for x in prov.origins(tb, tb.term(i)["args"][0]))
+                 for i, c in tops)
+    ck.ob(rule, "stack-top:%s" % top_fn.rsplit("::", 1)[-1], ok_top, "the current file is the last element of `%s`" % field,
+          msg="%s does not read the top of the stack `%s`" % (top_fn, field))
